@@ -3,7 +3,7 @@
     and assumption printing.  Model: Sketch/SketchModel.v (bit-level, tied to
     src/common/frequency_sketch.rs by the `sketch` lock-step correspondence and by the
     regenerated constants of Gen/Consts.v).  Proofs: Sketch/SketchProofs.v. *)
-From MM Require Import Sketch.SketchSpec Sketch.SketchProofs.
+From MM Require Import Sketch.SketchSpec Sketch.SketchProofs Unsync.UInvDefs Unsync.UInv.
 
 (** (1) The estimate of any key is at most 15 — any sketch state at all. *)
 Theorem C14_bounded : forall sk h, frequency sk h <= 15.
@@ -65,11 +65,47 @@ Theorem C14_increment_aged :
               (forall h0, frequency sk h0 <= frequency mid h0).
 Proof. exact increment_aged_is_reset. Qed.
 
+(** (9) Only get calls are ever recorded — single-threaded cache: a get (hit or miss) records
+    exactly one lookup of its key's hash; insert can only ENABLE the sketch (ensure_capacity on
+    the not yet enabled sketch), never record; contains_key, invalidate, invalidate_entries_if,
+    invalidate_all leave the sketch untouched; iteration leaves the whole state untouched.
+    (Concurrent cache: Sync/SProvenance.v.) *)
+Theorem C14_unsync_get_records_once : forall c s now k s' v,
+  cfg_ok c -> WF' c s -> small s -> u_get c s now k = Ok (s', v) ->
+  u_skon s' = u_skon s /\ exists sk1, increment (u_sk s) (uc_hash c k) = Ok sk1 /\ u_sk s' = sk1.
+Proof. exact u_get_sketch. Qed.
+Theorem C14_unsync_insert_never_records : forall c s now k v s',
+  cfg_ok c -> WF' c s -> small s -> u_insert c s now k v = Ok s' ->
+  u_sk s' = u_sk s \/
+  (u_skon s = false /\ u_skon s' = true /\ exists cap, u_sk s' = ensure_capacity (u_sk s) cap).
+Proof. exact u_insert_sketch. Qed.
+Theorem C14_unsync_contains_never_records : forall c s now k s' b,
+  cfg_ok c -> WF' c s -> small s -> u_contains c s now k = Ok (s', b) ->
+  u_sk s' = u_sk s /\ u_skon s' = u_skon s.
+Proof. exact u_contains_sketch. Qed.
+Theorem C14_unsync_invalidate_never_records : forall c s now k s',
+  cfg_ok c -> WF' c s -> small s -> u_invalidate c s now k = Ok s' ->
+  u_sk s' = u_sk s /\ u_skon s' = u_skon s.
+Proof. exact u_invalidate_sketch. Qed.
+Theorem C14_unsync_invalidate_if_never_records : forall c s p s',
+  cfg_ok c -> WF' c s -> small s -> u_invalidate_if s p = Ok s' ->
+  u_sk s' = u_sk s /\ u_skon s' = u_skon s.
+Proof. exact u_invalidate_if_sketch. Qed.
+Theorem C14_unsync_invalidate_all_never_records : forall s,
+  u_sk (u_invalidate_all s) = u_sk s /\ u_skon (u_invalidate_all s) = u_skon s.
+Proof. exact u_invalidate_all_sketch. Qed.
+
 Check C14_bounded : forall sk h, frequency sk h <= 15.
 Check C14_never_underestimates :
   forall cap hs h sk, incr_all (fresh cap) hs = Ok sk ->
     ref_count (fresh cap) h 0 hs <= frequency sk h.
 
+Print Assumptions C14_unsync_get_records_once.
+Print Assumptions C14_unsync_insert_never_records.
+Print Assumptions C14_unsync_contains_never_records.
+Print Assumptions C14_unsync_invalidate_never_records.
+Print Assumptions C14_unsync_invalidate_if_never_records.
+Print Assumptions C14_unsync_invalidate_all_never_records.
 Print Assumptions C14_bounded.
 Print Assumptions C14_fresh_wf.
 Print Assumptions C14_index_in_table.
